@@ -9,6 +9,20 @@ RULE = ('two sources with 0-6 ids each, one or two key fields given by tables (m
 
 def run(tier, seed, res, lean):
     run_rel('C16', ['join'], tier, seed, res, lean, RULE)
+    # the container JoinContainer builds against CM.Model.JoinBag (the node-level theorem node_join_container is about its edges)
+    from .. import suite_factory
+    from ..par import pmap
+    from ..runner import Violation
+    outs = pmap(suite_factory.run_join_shard, [(seed * 1913 + i + 1, 12 if tier == 'quick' else 80) for i in range(16)])
+    bad = [b for o in outs for b in o[1]]
+    res.coverage['join_containers'] = sum(o[0]['joins'] for o in outs)
+    res.coverage['join_containers_rejected'] = sum(sum(o[0]['errors'].values()) for o in outs)
+    res.coverage['join_container_modes'] = {k: sum(o[0]['modes'].get(k, 0) for o in outs) for k in ('inner', 'left', 'right', 'outer')}
+    if bad:
+        res.violations.append(Violation(
+            'c16-join-container-correspondence',
+            f'the container the real Join builds and CM.Model.JoinBag.joinBag differ: {str({k: v for k, v in bad[0].items() if k != "desc"})[:300]}',
+            {'suite': 'S-FACTORY/join', 'theorems': [t for t in lean['theorems'] if 'node_' in t], **bad[0]}, found_input=False))
 
 
 replay = replay_rel
